@@ -118,6 +118,15 @@ impl ObjectView for Object {
 }
 #[verifier::external_body]
 pub struct ObjectCell { _p: u8 }
+impl Default for ObjectCell {
+    /// a fresh RefCell<Object>: no names
+    #[verifier::external_body]
+    fn default() -> (r: ObjectCell) ensures r.now().dom() == Set::<Key>::empty() { unimplemented!() }
+}
+impl Default for Registers {
+    #[verifier::external_body]
+    fn default() -> (r: Registers) { unimplemented!() }
+}
 impl ObjectCell {
     pub uninterp spec fn now(&self) -> Object;
     #[verifier::external_body]
@@ -361,6 +370,131 @@ impl<P: Runtime, O: ObjectView> Runtime for SandboxedStackFrame<P, O> {
 //@ spec
     ensures r == &self.registers,          // [C18:sandbox_owns_its_registers]
 //@ end
+}
+
+// ---------------- constructors, the core runtime and RuntimeBuilder::build (the order of the layers) ----------------
+impl<P: Runtime, O: ObjectView> StackFrame<P, O> {
+//@ item crates/core/src/runtime/stack.rs :: impl StackFrame<P,O>::new
+//@ props C18 C04
+//@ sig pub fn new(parent: P, data: O) -> (r: Self)
+//@ spec
+    ensures r.parent == parent, r.data == data,
+//@ end
+}
+impl<P: Runtime> GlobalFrame<P> {
+//@ item crates/core/src/runtime/stack.rs :: impl GlobalFrame<P>::new
+//@ props C18 C04
+//@ sig pub fn new(parent: P) -> (r: Self)
+//@ spec
+    ensures r.parent == parent, r.data.now().dom() == Set::<Key>::empty(),      // [C18:fresh_global_layer_is_empty]
+//@ end
+}
+impl<P: Runtime> IndexFrame<P> {
+//@ item crates/core/src/runtime/stack.rs :: impl IndexFrame<P>::new
+//@ props C18 C04
+//@ sig pub fn new(parent: P) -> (r: Self)
+//@ spec
+    ensures r.parent == parent, r.data.now().dom() == Set::<Key>::empty(),
+//@ end
+}
+impl<P: Runtime, O: ObjectView> SandboxedStackFrame<P, O> {
+//@ item crates/core/src/runtime/stack.rs :: impl SandboxedStackFrame<P,O>::new
+//@ props C18
+//@ sig pub fn new(parent: P, data: O) -> (r: Self)
+//@ spec
+    ensures r.parent == parent, r.data == data,
+//@ end
+}
+
+/// the bottom of every stack: knows no name
+pub struct RuntimeCore { pub registers: Registers }
+impl Default for RuntimeCore {
+    #[verifier::external_body]
+    fn default() -> (r: RuntimeCore) { unimplemented!() }
+}
+#[verifier::external_body]
+pub struct Scalar { _p: u8 }
+impl Scalar {
+    #[verifier::external_body]
+    pub fn new(s: &str) -> ScalarCow { unimplemented!() }
+}
+impl Clone for ScalarCow {
+    #[verifier::external_body]
+    fn clone(&self) -> (r: ScalarCow) ensures r == *self { unimplemented!() }
+}
+impl Error {
+    #[verifier::external_body]
+    pub fn into_err2<T>(self) -> (r: Result<T>) ensures r is Err { unimplemented!() }
+}
+impl Runtime for RuntimeCore {
+    open spec fn lookup(&self, path: Seq<Key>) -> Option<VId> { None }
+    open spec fn root_set(&self) -> Set<Key> { Set::empty() }
+//@ item crates/core/src/runtime/runtime.rs :: impl Runtime for RuntimeCore<'_>::roots
+//@ props C18
+//@ sig fn roots(&self) -> (r: RootSet)
+//@ edit <<std::collections::BTreeSet::new()>> => <<RootSet::new()>> why: BTreeSet is outside Verus; stand-in set type with the same constructor contract (empty set)
+//@ end
+//@ item crates/core/src/runtime/runtime.rs :: impl Runtime for RuntimeCore<'_>::try_get
+//@ props C18 C02
+//@ sig fn try_get(&self, _path: &[ScalarCow]) -> (r: Option<ValueCow>)
+//@ end
+//@ item crates/core/src/runtime/runtime.rs :: impl Runtime for RuntimeCore<'_>::get
+//@ props C18 C02
+//@ sig fn get(&self, path: &[ScalarCow]) -> (r: Result<ValueCow>)
+//@ closure 0 arg_of=unwrap_or_else params=
+|| -> (s: ScalarCow)
+//@ end
+    #[verifier::external_body]
+    fn set_global(&self, name: KString, val: Value) -> (r: Option<Value>) { unimplemented!() }
+    #[verifier::external_body]
+    fn set_index(&self, name: KString, val: Value) -> (r: Option<Value>) { unimplemented!() }
+//@ item crates/core/src/runtime/runtime.rs :: impl Runtime for RuntimeCore<'_>::get_index
+//@ props C18
+//@ sig fn get_index(&self, _name: &str) -> (r: Option<ValueCow>)
+//@ end
+//@ item crates/core/src/runtime/runtime.rs :: impl Runtime for RuntimeCore<'_>::registers
+//@ props C18
+//@ sig fn registers(&self) -> (r: &Registers)
+//@ end
+}
+
+/// the caller's data as the builder holds it (`&dyn ObjectView`, or the empty NullObject)
+pub struct DataRef<'g> { pub o: &'g dyn ObjectView }
+impl<'g> ObjectView for DataRef<'g> {
+    open spec fn dom(&self) -> Set<Key> { self.o.dom() }
+    open spec fn find_spec(&self, path: Seq<Key>) -> Option<VId> { self.o.find_spec(path) }
+    #[verifier::external_body]
+    fn contains_key(&self, index: &str) -> (r: bool) { unimplemented!() }
+    #[verifier::external_body]
+    fn get(&self, index: &str) -> (r: Option<&dyn ValueView>) { unimplemented!() }
+    #[verifier::external_body]
+    fn keys(&self) -> (r: KeyIter) { unimplemented!() }
+    #[verifier::external_body]
+    fn as_value(&self) -> (r: ObjAsValue<'_, Self>) { unimplemented!() }
+}
+pub struct RuntimeBuilder<'g> { pub globals: Option<DataRef<'g>> }
+/// NullObject: the empty object used when no data is given
+#[verifier::external_body]
+pub fn null_object<'g>() -> (r: DataRef<'g>) ensures r.dom() == Set::<Key>::empty() { unimplemented!() }
+pub mod runtime_rs { use super::*;
+// (module so that the body's `super::IndexFrame` ... paths resolve as they do in runtime/runtime.rs)
+impl<'g> RuntimeBuilder<'g> {
+//@ item crates/core/src/runtime/runtime.rs :: impl RuntimeBuilder<'g,'p>::build
+//@ props C04 C18 C09
+//@ sig pub fn build(self) -> (r: GlobalFrame<StackFrame<IndexFrame<RuntimeCore>, DataRef<'g>>>)
+//@ spec
+    ensures
+        // a fresh runtime: no assigned variables, no counters; a name resolves exactly to the caller's data
+        forall|path: Seq<Key>| #[trigger] r.lookup(path) == (match self.globals {
+            Some(g) => if path.len() > 0 && g.dom().contains(path[0]) { g.find_spec(path) } else { None::<VId> },
+            None => None::<VId> }),                                                                  // [C04:fresh_runtime_sees_only_caller_data] [C18:build_layer_order]
+        r.data.now().dom() == Set::<Key>::empty(), r.parent.parent.data.now().dom() == Set::<Key>::empty(),   // [C09:every_render_starts_from_an_empty_runtime]
+        self.globals matches Some(g) ==> r.parent.data == g,
+//@ edit <<let partials = self.partials.unwrap_or(&NullPartials);>> => <<>> why: partial store plumbing is outside this unit
+//@ editre <<RuntimeCore \{\s*partials,\s*\.\.Default::default\(\)\s*\}>> => <<RuntimeCore::default()>> why: struct-update syntax over the partial store; the stand-in core has no partials field
+//@ edit <<self.globals.unwrap_or(&NullObject)>> => <<self.globals.unwrap_or(null_object())>> why: NullObject (an empty ObjectView) as a stand-in constructor
+//@ end
+}
 }
 
 // ---------------- consequences for plugin authors (lemmas over the layer definitions; C18, C04) ----------------
